@@ -14,7 +14,7 @@ NEST = ["S", "O", "R", "SO", "SR", "OR", "RO", "SOR", "SRO"]
 RULE = ("kernel = (wrapper nesting over {scaled_integer<.,power<0>>, overflow_integer<.,native_overflow_tag>, rounding_integer<.,native_rounding_tag>}, built-in type 8..64 bit, operator form: 16 binary, 3 unary, 10 compound assignments, "
         "4 inc/dec) from the frozen instantiable universe matrix/native.json, plus the documented fixed-point kernels (multiply-widen, mixed-exponent add, average, square, ++/--) against hand-written shift-and-operate twins. "
         "Oracle: the same built-in expression executed in the same binary (value and result type), evaluated only on inputs where it has no undefined behaviour (exact pre-check on 256-bit integers). 8-bit operand pairs exhaustively "
-        "(16-bit pairs exhaustively in thorough on the as-shipped build), boundary lattice squared + seeded random otherwise. distinct_nontrivial counts enumerated/lattice pairs with an operand within 3 of 0, a bound or a power of two.")
+        "(in thorough: all 2^32 pairs of 16-bit operands for a seeded selection of 32 binary kernels on the as-shipped build), boundary lattice squared + seeded random otherwise. distinct_nontrivial counts enumerated/lattice pairs with an operand within 3 of 0, a bound or a power of two.")
 
 
 def wtype(n, t):
@@ -89,11 +89,13 @@ def run(tier, seed, only=None):
     stm = [(k["desc"], k["stmt"]) for k in ks]
     jobs = []
     for cfg in cfgs:
-        e = dict(env)
-        if tier == "thorough" and cfg == "g-rel":
-            e["VERIF_EXH16"] = "1"
         for i, sh in enumerate(core.shard(stm, 1 if only else (32 if tier == "quick" else 64))):
-            jobs.append(core.Job("c12-%d" % i, core.tu("c12.h", sh), cfg, env=e, timeout=7200))
+            jobs.append(core.Job("c12-%d" % i, core.tu("c12.h", sh), cfg, env=dict(env), timeout=7200))
+    if tier == "thorough" and not only:
+        # all 2^32 pairs of 16-bit operands on the as-shipped build for a seeded selection of 32 binary kernels (one job each: ~10 min apiece)
+        k16 = [k for k in nat if ("<i16>" in k["desc"] or "<u16>" in k["desc"]) and k["desc"].split()[-1] in ("ADD", "SUB", "MUL", "DIV", "MOD", "SHL", "SHR", "LT", "AADD", "AMUL", "ADIV", "ASHL")]
+        for i, k in enumerate(rng.sample(k16, min(32, len(k16)))):
+            jobs.append(core.Job("c12x-%d" % i, core.tu("c12.h", [(k["desc"], k["stmt"])]), "g-rel", env=dict(env, VERIF_EXH16="1"), timeout=7200))
     core.build_and_run(jobs, "C12")
     for j in jobs:
         res.absorb(j)
